@@ -1347,10 +1347,11 @@ class WorkerGateway(BaseGateway):
         except KeyboardInterrupt:
             channel.close(INTERRUPT_TEXT)
             raise
-        except EOFError:
-            self._trace("ignoring EOFError because receiving finished")
-
         except BaseException as exc:
+            # Once receiving has finished nobody can be told any more (an
+            # EOFError from channel.receive() is the usual case); as long
+            # as the connection is up every failure is reported, EOFError
+            # raised by the executed code included.
             if not channel.gateway._channelfactory.finished:
                 self._trace(f"got exception: {exc!r}")
                 errortext = self._geterrortext(exc)
